@@ -33,7 +33,7 @@ impl V {
         match self {
             V::I(i) => i.to_string(),
             V::F(f) => format!("{f:?}"),
-            V::S(s) => format!("\"{s}\""),
+            V::S(s) => format!("\"{}\"", s.replace('\\', "\\\\").replace('"', "\\\"")),
             V::B(b) => b.to_string(),
             V::N => "none".into(),
             V::A(a) => format!("[{}]", a.iter().map(|x| x.lit()).collect::<Vec<_>>().join(", ")),
@@ -80,7 +80,7 @@ fn val(r: &mut Rng) -> V {
         0 => V::I(r.below(5) as i64 - 2),
         // whole floats too: `2.0` is a float, not an integer, whatever its value
         1 => V::F(*r.pick(&[1.5, 2.0, 0.0, 7.0, -3.0])),
-        2 => V::S(r.pick(&["s", "", "é<", "x y"]).to_string()),
+        2 => V::S(r.pick(&["s", "", "é<", "x y", "q\"t", "b\\s"]).to_string()),
         3 => V::B(r.bool()),
         4 => V::N,
         5 => V::A(vec![V::I(1), V::S("a".into())]),
